@@ -171,9 +171,9 @@ func Verif_C05_garbage_then_other_peer() {
 	verifLoopBound(17) // (the 16-byte marker loop must be able to complete)
 	T := 20
 	if verifTier() >= 1 {
-		T = 26
+		T = 23
 	}
-	verifNote("Server with two passive peers A and B on one listener; A's inbound connection is brought to OpenSent / OpenConfirm / Established, then receives 19 symbolic header bytes + a symbolic tail of 0..T bytes (20 quick / 26 thorough) and EOF (1 short read): no panic, no deadlock; then B's connection establishes and Server.Close returns with every goroutine gone")
+	verifNote("Server with two passive peers A and B on one listener; A's inbound connection is brought to OpenSent / OpenConfirm / Established, then receives 19 symbolic header bytes + a symbolic tail of 0..T bytes (20 quick / 23 thorough) and EOF (1 short read): no panic, no deadlock; then B's connection establishes and Server.Close returns with every goroutine gone")
 	e := newSrvEnv()
 	ra, rb := netip.AddrFrom4([4]byte{192, 0, 2, 1}), netip.AddrFrom4([4]byte{192, 0, 2, 2})
 	for _, r := range []netip.Addr{ra, rb} {
@@ -217,6 +217,62 @@ func Verif_C05_garbage_then_other_peer() {
 	verifQuiesce()
 	verifAssert("no-goroutine-left", verifGoroutines() == 0)
 	verifCover("survived")
+}
+
+// the same with the garbage pipelined right behind a message that already ends the session: the reader
+// goroutine is then ahead of an FSM that is tearing the connection down
+func Verif_C05_garbage_behind_session_ending_message() {
+	verifEngineOnly()
+	verifLoopBound(17)
+	verifNote("Server with two passive peers A and B on one listener; A's inbound connection is brought to OpenSent / OpenConfirm / Established; then a message that ends the session there (KEEPALIVE in OpenSent, OPEN in OpenConfirm / Established: FSM error) arrives with 19 symbolic header bytes + a symbolic tail of 0..2 bytes + EOF pipelined right behind it; at most 1 delay: no panic, no deadlock; then B's connection establishes and Server.Close returns with every goroutine gone")
+	e := newSrvEnv()
+	ra, rb := netip.AddrFrom4([4]byte{192, 0, 2, 1}), netip.AddrFrom4([4]byte{192, 0, 2, 2})
+	for _, r := range []netip.Addr{ra, rb} {
+		verifAssert("addpeer", e.s.AddPeer(PeerConfig{RemoteAddress: r, LocalAS: 65000, RemoteAS: 65001}, e.pl, WithPassive()) == nil)
+	}
+	e.serve()
+	a := newStagedConn("a")
+	a.remote = ra
+	e.lis.ch <- a
+	verifQuiesce()
+	state := verifChoose("state", 3)
+	if state >= stOpenConfirm {
+		a.send(openMessageType, mkOpenBody(65001, 90, 0x0a000002))
+		verifQuiesce()
+	}
+	if state >= stEstablished {
+		a.send(keepAliveMessageType, nil)
+		verifQuiesce()
+	}
+	hdr := verifBuf("header", 19, 19)
+	tail := verifBuf("tail", 0, 2)
+	verifDelayBound(1)
+	if state == stOpenSent {
+		a.chunks = append(a.chunks, mkFrame(keepAliveMessageType, nil))
+	} else {
+		a.chunks = append(a.chunks, mkFrame(openMessageType, mkOpenBody(65001, 90, 0x0a000002)))
+	}
+	a.chunks = append(a.chunks, hdr)
+	if len(tail) > 0 {
+		a.chunks = append(a.chunks, tail)
+	}
+	a.endMode = 1
+	a.deliver(len(a.chunks), true)
+	verifQuiesce()
+	verifDelayBound(0)
+	verifAssert("garbage-connection-closed", a.closed)
+	est := e.pl.nEstab
+	b := newStagedConn("b")
+	b.remote = rb
+	e.lis.ch <- b
+	verifQuiesce()
+	e.establish(b)
+	verifAssert("other-peer-still-establishes", e.pl.nEstab == est+1 && !b.closed)
+	e.s.Close()
+	verifAssert("close-returns-and-serve-ends", <-e.serveErr == ErrServerClosed)
+	verifQuiesce()
+	verifAssert("no-goroutine-left", verifGoroutines() == 0)
+	verifCover("survived-pipelined-garbage")
 }
 
 // every order of API calls: nothing panics, nothing wedges, Close returns
